@@ -195,10 +195,22 @@ orc_parse_code (const char *code, OrcProgram ***programs, int *n_programs,
       continue;
     }
 
-    if (orc_line_is_directive (line)) {
-      orc_parse_handle_directive (parser, line);
-    } else {
-      orc_parse_handle_opcode (parser, line);
+    {
+      OrcProgram *const program = parser->program;
+      const int had_error = program && orc_program_get_error (program)[0];
+
+      if (orc_line_is_directive (line)) {
+        orc_parse_handle_directive (parser, line);
+      } else {
+        orc_parse_handle_opcode (parser, line);
+      }
+
+      /* a limit of the program (instructions, variables, constants) that
+       * this line ran into is recorded on the program only: report it */
+      if (program && program == parser->program && !had_error
+          && orc_program_get_error (program)[0]) {
+        orc_parse_add_error (parser, "%s", orc_program_get_error (program));
+      }
     }
   }
   orc_parse_free_line (parser);
